@@ -18,7 +18,15 @@ impl ResultsFormatter for JsonFormatter {
     }
 
     fn format_element(&mut self, name: &str, record: &str, _is_last: bool) -> Option<String> {
-        self.file_map.insert(name.to_owned(), record.to_owned());
+        // two columns may carry the same name (`select name, size, name`): an object cannot hold a
+        // key twice, so a repeated name gets a running number instead of overwriting the earlier value
+        let mut key = name.to_owned();
+        let mut n = 1;
+        while self.file_map.contains_key(&key) {
+            n += 1;
+            key = format!("{}_{}", name, n);
+        }
+        self.file_map.insert(key, record.to_owned());
         None
     }
 
